@@ -173,6 +173,18 @@ def run(tier):
                 s = rng.choice(loopgen.LEXBAD)      # rejected by the tokenizer, not the parser
             qs.append(s)
         batches.append(qs)
+    # long batches (the batch entry points reuse one parser for the whole list: state that accumulates from member to
+    # member — nesting depth, counters — shows only after many members): statements of every kind incl. sub-queries
+    # that start with WITH, one kind repeated and mixed, with and without a malformed member near the end
+    rich = loopgen.rich_statements(rng, 60)
+    for j in range(8 if tier == "quick" else 80):
+        m = rng.randrange(120, 320)
+        qs = [rich[j % len(rich)]] * m if j % 2 == 0 else [rng.choice(rich) for _ in range(m)]
+        if j % 3 == 0:
+            qs = qs + [loopgen.corrupt(rng, rng.choice(base))[1]] + qs[:3]
+        batches.append(qs)
+    for s in loopgen.RICH:
+        batches.append([s] * 150)
     pb = common.vh(["batch"], input="".join(json.dumps({"queries": q}) + "\n" for q in batches), timeout=900)
     brow = [json.loads(l) for l in pb.stdout.splitlines() if l.strip()]
     bbad = []
@@ -196,7 +208,7 @@ def run(tier):
     rp.obligation("oracle: ParseMultiple/ValidateMultiple = individual calls, first failing index, on %d batches" % len(brow), not bbad and len(brow) == len(batches))
     for b, why in bbad[:3]:
         rp.violation({"kind": "oracle", "queries": b["queries"], "why": why, "observed": {k: b[k] for k in ("multi_ok", "multi_code", "multi_msg", "vmulti_ok", "vmulti_code", "vmulti_msg")},
-                      "singles": b["singles"]}, "batch_%d" % len(rp.violations))
+                      "singles": b["singles"][:12]}, "batch_%d" % len(rp.violations))
 
     rp.cov["distinct_nontrivial"] = len(nontrivial)
     rp.cov["input_distribution"] = dist
